@@ -53,7 +53,7 @@ func CertsSTACK(ident string) []STACK.Certificate {
 func BuildSTACK(e EPConfig, reg *Registry) *STACK.Config {
 	p := GetPKI()
 	c := &STACK.Config{
-		Time:               Now,
+		Time:               func() time.Time { return Now().AddDate(e.TimeShiftYears, 0, 0) },
 		Certificates:       CertsSTACK(e.Ident),
 		NextProtos:         e.ALPN,
 		ServerName:         e.ServerName,
